@@ -706,6 +706,18 @@ func (b *Builder) UnBounded(o interface{}, x bool) {
 
 func (b *Builder) Default(o interface{}, defaultVal string) {
 	if h, valid := o.(HasDefault); valid {
+		if _, isAny := o.(*Any); isAny {
+			b.setErr(fmt.Errorf("%T does not support default", o))
+			return
+		}
+		switch o.(type) {
+		case *Leaf, *Choice, *Typedef:
+			// these hold a single default
+			if h.HasDefault() {
+				b.setErr(fmt.Errorf("default already set on %T", o))
+				return
+			}
+		}
 		h.addDefault(defaultVal)
 	} else {
 		b.setErr(fmt.Errorf("%T does not support default", o))
